@@ -316,7 +316,10 @@ def UF(name, *args):
 UF_AXIOMS = lambda: [UF('sin', z3.RealVal(0)) == 0, UF('cos', z3.RealVal(0)) == 1, UF('exp', z3.RealVal(0)) == 1,
                      UF('log', z3.RealVal(1)) == 0, UF('tan', z3.RealVal(0)) == 0, UF('sinh', z3.RealVal(0)) == 0,
                      UF('cosh', z3.RealVal(0)) == 1, UF('tanh', z3.RealVal(0)) == 0, UF('arcsin', z3.RealVal(0)) == 0,
-                     UF('arctan', z3.RealVal(0)) == 0, UF('arctanh', z3.RealVal(0)) == 0]
+                     UF('arctan', z3.RealVal(0)) == 0, UF('arctanh', z3.RealVal(0)) == 0,
+                     # enclosures of the two irrational constants nutils folds in binary64 (log2/log10 are log(x)/log(2|10)): decided by the margin query
+                     UF('log', z3.RealVal(2)) > z3.RealVal('0.6931471805599452'), UF('log', z3.RealVal(2)) < z3.RealVal('0.6931471805599454'),
+                     UF('log', z3.RealVal(10)) > z3.RealVal('2.302585092994045'), UF('log', z3.RealVal(10)) < z3.RealVal('2.302585092994046')]
 
 def _unary(name, dom=None):
     def f(s):
